@@ -53,6 +53,10 @@ class C16(Prop):
         rows6 = C.read_jsonl(p6)
         if rc != 0 or not rows6:
             raise RuntimeError("C16 abort-then-concurrent harness did not run: rc=%s\n%s" % (rc, out[-2000:]))
+        rc, out, p9, dt = C.go_test_overlay(ctx.work, "./utils/tcpbridge/connection/", "TestVerifC16ServerCloseIdleClient$", OVERLAY, "C16Idle.jsonl", ctx.seed, ctx.tier, timeout=600, extra_env=env)
+        rows9 = C.read_jsonl(p9)
+        if rc != 0 or not rows9:
+            raise RuntimeError("C16 server-close / idle-client harness did not run: rc=%s\n%s" % (rc, out[-2000:]))
         rc, out, p8, dt = C.go_test_overlay(ctx.work, "./utils/tcpbridge/connection/", "TestVerifC16StalledNeighbours$", OVERLAY, "C16Neigh.jsonl", ctx.seed, ctx.tier, timeout=900, extra_env=env)
         rows8 = C.read_jsonl(p8)
         if rc != 0 or not rows8:
@@ -62,7 +66,7 @@ class C16(Prop):
         rows7 = C.read_jsonl(p7)
         if rc != 0 or not rows7:
             raise RuntimeError("C16 stalled-set-up harness did not run: rc=%s\n%s" % (rc, out[-2000:]))
-        return {"rows": rows + rows2 + rows3 + rows4 + rows5 + rows6 + rows7 + rows8}
+        return {"rows": rows + rows2 + rows3 + rows4 + rows5 + rows6 + rows7 + rows8 + rows9}
 
     def oracle(self, ctx, obs):
         res = []
@@ -70,6 +74,15 @@ class C16(Prop):
             if r["kind"] == "open-count":
                 if r["open"] != 0:
                     res.append(("connections-leaked", "%d of %d bridged connections are still open on the TCP server after both ends are gone" % (r["open"], r["scenarios"]), r))
+                continue
+            if r["kind"] == "server-close-idle-client":
+                rp = {"driver": "TestVerifC16ServerCloseIdleClient: 10 connections on which the TCP server writes a line and closes; the clients read to end of stream and keep their sockets; sockets of the tcp-bridge-frontend process counted in /proc", "observed": r}
+                if r.get("clients_saw_data_and_eof") != r.get("connections"):
+                    res.append(("server-close:client-did-not-see-data-and-eof", "%s of %s clients received the server's line followed by end of stream" % (r.get("clients_saw_data_and_eof"), r.get("connections")), rp))
+                elif r.get("frontend_sockets_before", -1) >= 0 and r.get("frontend_sockets_2s_after_the_server_closed", 0) > r["frontend_sockets_before"] + r["connections"]:
+                    # (the client's own socket stays until the client closes it; the websocket socket must be gone)
+                    res.append(("server-close:bridge-keeps-its-connections", "2 s after the server had closed all %d connections the frontend process held %d sockets (%d before the connections, %d after the clients closed): it has not released the websocket side" % (
+                        r["connections"], r["frontend_sockets_2s_after_the_server_closed"], r["frontend_sockets_before"], r.get("frontend_sockets_after_clients_closed")), rp))
                 continue
             if r["kind"] == "stalled-neighbours":
                 rp = {"driver": "TestVerifC16StalledNeighbours: a download whose client stops reading and an upload whose server does not read (both stalled by back-pressure, all four endpoints alive), then four short connections through the same two bridge processes", "observed": r}
